@@ -19,7 +19,7 @@ impl<'a> WireFormat<'a> for AAAA {
     where
         Self: Sized,
     {
-        let address = u128::from_be_bytes(data[*position..*position + 16].try_into()?);
+        let address = u128::from_be_bytes(data.get(*position..*position + 16).ok_or(crate::SimpleDnsError::InsufficientData)?.try_into()?);
         *position += 16;
         Ok(Self { address })
     }
